@@ -186,6 +186,23 @@ def Iter.reset (root : Tree) : Iter :=
   | some it => it
   | none => { stack := [] }
 
+/-- Loop condition of `ts_parser__breakdown_lookahead`: a reused inner node that was built in a
+different parse state is replaced by its first child. -/
+def needsBreakdown (t : Tree) (state : Nat) : Bool := !t.kids.isEmpty && t.data.parseState != state
+
+/-- `ts_parser__breakdown_lookahead` on the iterator (`fuel` ≥ height of the node). -/
+def Iter.breakdown : Nat → Iter → Nat → Iter
+  | 0, it, _ => it
+  | fuel + 1, it, state =>
+    match it.tree? with
+    | none => it
+    | some t =>
+      if needsBreakdown t state then
+        match it.descend with
+        | some it' => Iter.breakdown fuel it' state
+        | none => it
+      else it
+
 /-- How the loop of `ts_parser__reuse_node` moves the iterator after an event; the Bool says
 whether the loop continues with the next candidate (`continue`) or ends (`break`/`return`).
 `(none)` for the state means "a leaf could not be reused and the top of the stack may have been
